@@ -2347,10 +2347,15 @@ macro_rules! vec_impl_spatial_3d {
                     let (mag_from, mag_to) = (from.magnitude(), to.magnitude());
                     let (from, to) = (from/mag_from, to/mag_to);
                     let cos_alpha = from.dot(to).clamped_minus1_1();
-                    let alpha = cos_alpha.acos();
-                    let sin_alpha = alpha.sin();
-                    let t1 = ((T::one() - factor) * alpha).sin() / sin_alpha;
-                    let t2 = (factor * alpha).sin() / sin_alpha;
+                    // When the directions (nearly) coincide, sin(alpha) vanishes: the arc degenerates to
+                    // the common direction, so interpolate the unit vectors linearly (as Quaternion::slerp does).
+                    let (t1, t2) = if cos_alpha > T::one() - T::epsilon() {
+                        (T::one() - factor, factor)
+                    } else {
+                        let alpha = cos_alpha.acos();
+                        let sin_alpha = alpha.sin();
+                        (((T::one() - factor) * alpha).sin() / sin_alpha, (factor * alpha).sin() / sin_alpha)
+                    };
                     (from * t1 + to * t2) * Lerp::lerp_unclamped(mag_from, mag_to, factor)
                 }
                 /// Performs spherical linear interpolation between this vector and another,
